@@ -27,6 +27,8 @@ class TrashedFile(NamedTuple('TrashedFile', [
 
 
 class InfoFilePersister:
+    max_failed_attempts = 1000
+
     def __init__(self,
                  fs,  # type: Fs
                  logger,  # type: MyLogger
@@ -50,6 +52,7 @@ class InfoFilePersister:
                     ):  # type: (...) -> Result
         index = 0
         name_too_long = False
+        failed_attempts = 0
         while True:
             suffix = self.suffix.suffix_for_index(index)
             trashinfo_basename = create_trashinfo_basename(data.basename,
@@ -65,6 +68,10 @@ class InfoFilePersister:
                 yield Succeeded(TrashedFile(trashinfo_path),
                                 ".trashinfo created as %s." % trashinfo_path)
             except OSError as e:
+                failed_attempts += 1
+                if failed_attempts >= self.max_failed_attempts:
+                    # e.g. read-only or full file system: another name won't help
+                    raise
                 if e.errno == errno.ENAMETOOLONG:
                     name_too_long = True
                 yield NeedsMoreAttempts(trashinfo_path,
